@@ -119,6 +119,30 @@ PROPS = {
                       'all lists up to length 8',
         'level_note': 'finite alphabets as listed; lists longer than 8 only with <=2 deviations from a constant list',
     },
+    'C17': {
+        'sources': ['src/monitoring/RateMonitoring.cpp', 'src/diagnostics/CheckupRate.cpp', 'src/diagnostics/Diagnostic.cpp',
+                    'src/diagnostics/DiagnosticReport.cpp', 'src/diagnostics/DiagnosticStatus.cpp'],
+        'harness': 'c17_rate.cpp',
+        'flavour': 'asan',
+        'level': 'model_checking',
+        'engine': 'sequence',
+        'rule': 'S1: BFS to fixpoint over the product (private state of a real RateMonitoring + CheckupEqualToRate + '
+                'CheckupGreaterThanRate x reference model) with an 11-event alphabet (data periods 1us..10s incl. 0.5s and '
+                '0.5s+1ns, heartbeat offsets 0..1s); objects are not copyable so each state is its event history replayed '
+                'on fresh objects, at two time origins. S2: steady 500-event scripts for windows 10..64 with every '
+                'placement of <=k deviations (jitter, burst, silences, early/late heartbeats). evaluation = one event '
+                'applied and all observables compared; non-trivial = window has rolled over or the event is a heartbeat '
+                '(S1), run contains a deviation (S2).',
+        'assumptions': ['expected rates chosen so that 2*rate is an integer (window size unambiguous)',
+                        'rate compared within 4 ulp; a rate within 8 ulp of a threshold may take either verdict, consistently',
+                        'info string must be the default ostream print of the rate (or of a value within 4 ulp of the model rate)'],
+        'tiers': {'quick': {'deadline': 400, 'case_timeout': 200}, 'thorough': {'deadline': 3300, 'case_timeout': 1800}},
+        'technique': 'explicit-state model checking of the implementation: BFS over event histories to fixpoint (history replay on fresh objects) + deviation-bounded exhaustive scripts, reference model in lock-step',
+        'level_text': 'all reachable product states for window 4 with every event from every state; for windows up to 64 '
+                      'every placement of up to k deviations in a steady script; rate, timeout verdict, returned status '
+                      'and the full report compared with the model after every event',
+        'level_note': 'finite event alphabet; absolute time abstracted from the state (validated by running every transition at two origins)',
+    },
 }
 
 ENGINES = [
